@@ -1,13 +1,14 @@
 #!/venv/bin/python
 """For every seeded change: apply it in a scratch worktree, run every claimed
 quick check against that tree (SPYNE_REPO), record which properties fire.
-usage: seed_matrix.py <seed root> [--store]   (seed root has <ID>/<n>/patch.diff)
+usage: seed_matrix.py <seed root> [--store] [--tag r2]   (seed root has <ID>/<n>/patch.diff)
 """
 import json, os, subprocess, sys, glob, shutil
 from concurrent.futures import ThreadPoolExecutor
 VERIF = os.path.dirname(os.path.dirname(os.path.abspath(__file__)))
 root = sys.argv[1]
 store = '--store' in sys.argv
+tag = sys.argv[sys.argv.index('--tag') + 1] + '-' if '--tag' in sys.argv else ''
 ids = [c['property_id'] for c in json.load(open(VERIF + '/MANIFEST.json'))['checks']]
 head = subprocess.check_output(['git', '-C', '/repo', 'rev-parse', 'HEAD']).decode().strip()
 seeds = sorted(glob.glob(root + '/C*/[0-9]*/patch.diff'))
@@ -49,7 +50,7 @@ for prop, n, fired, err in results:
     summary['%s-%s' % (prop, n)] = fired
     if store and fired is not None:
         src = os.path.join(root, prop, n)
-        dst = os.path.join(VERIF, 'seeded', '%s-%s' % (prop, n))
+        dst = os.path.join(VERIF, 'seeded', '%s-%s%s' % (prop, tag, n))
         os.makedirs(dst, exist_ok=True)
         shutil.copy(src + '/patch.diff', dst + '/patch.diff')
         for f in os.listdir(src):
